@@ -80,6 +80,7 @@ type WorldOpts struct {
 	PAsync, PFail, PNull, PBad int
 	MaxItems                   int
 	ValueKindErrors            bool
+	NilKindErrors              bool // errors whose dynamic value is a nil slice / nil map of an error type (F-02c)
 }
 
 func GenWorld(r *hx.Rand, t *TShape, o WorldOpts) *WVal {
@@ -126,6 +127,12 @@ func genVal(r *hx.Rand, t *TShape, o WorldOpts, forceNonNull bool) *WVal {
 				wf.ErrKind = "ptr"
 				if o.ValueKindErrors && r.Chance(1, 3) {
 					wf.ErrKind = "value"
+				} else if o.NilKindErrors && r.Chance(1, 6) {
+					if r.Bool() {
+						wf.ErrKind, wf.Err = "nilslice", MsgNilSliceErr
+					} else {
+						wf.ErrKind, wf.Err = "nilmap", MsgNilMapErr
+					}
 				}
 			} else {
 				wf.V = genVal(r, f.T, o, false)
@@ -258,6 +265,11 @@ func Shrinks(c *Case) []*Case {
 		if c.Invocations()[i].NilErr {
 			d := c.Clone()
 			d.Invocations()[i].NilErr = false
+			out = append(out, d)
+		}
+		if k := c.Invocations()[i].ErrKind; k == "nilslice" || k == "nilmap" {
+			d := c.Clone()
+			d.Invocations()[i].ErrKind = "ptr"
 			out = append(out, d)
 		}
 		if c.Invocations()[i].ErrKind == "value" {
